@@ -46,6 +46,7 @@ STREAMS = {
         "rand_cwa": ("gen", ("cwaf", 3000, 14)),
         "rand_cwk": ("gen", ("cwskf", 3000, 8)),
         "rand_cwe": ("gen", ("cwe", 3000, 12)),
+        "rand_cwea": ("gen", ("cweaf", 3000, 12)),
         "rand_cwo": ("gen", ("cwo", 2000, 12)),
         "rand_n": ("gen", ("nwasf", 4000, 16)),
         "rand_np": ("gen", ("nwaspf", 2000, 12)),
@@ -68,6 +69,7 @@ STREAMS = {
         "rand_cwa": ("gen", ("cwaf", 40000, 18)),
         "rand_cwk": ("gen", ("cwskf", 30000, 10)),
         "rand_cwe": ("gen", ("cwe", 40000, 16)),
+        "rand_cwea": ("gen", ("cweaf", 30000, 14)),
         "rand_cwo": ("gen", ("cwo", 20000, 16)),
         "rand_n": ("gen", ("nwasf", 60000, 20)),
         "rand_np": ("gen", ("nwaspf", 30000, 14)),
